@@ -117,6 +117,7 @@ class Translator:
         self.used_assume = set()
         self.used_drop = set()
         self.used_nested = set()
+        self.loop_depth = 0
 
     # ---- names
     @staticmethod
@@ -170,6 +171,24 @@ class Translator:
             return E(f"{fn} {par(base.text)}" if fn else base.text, typ)
         if isinstance(node, ast.Subscript):
             base = self.expr(node.value, env)
+            if not isinstance(base, F) and base.typ.startswith("list "):
+                # x[0], x[-1], x[1:] on a list: head, last element, tail (the element type declares the value an empty
+                # list would give, which the tie lemmas never reach)
+                elem = base.typ[5:]
+                index = node.slice
+                if isinstance(index, ast.Slice):
+                    if index.upper is None and index.step is None and isinstance(index.lower, ast.Constant) and index.lower.value == 1:
+                        return E(f"tl {par(base.text)}", base.typ)
+                    raise KernelError(f"slice {ast.unparse(node)}")
+                default = "0" if elem == "Z" else self.types.get(elem, {}).get("default")
+                if default is None:
+                    raise KernelError(f"element type {elem} declares no default for indexing")
+                text = ast.unparse(index)
+                if text == "0":
+                    return E(f"hd {par(default)} {par(base.text)}", elem)
+                if text == "-1":
+                    return E(f"last {par(base.text)} {par(default)}", elem)
+                raise KernelError(f"list index {text}")
             if isinstance(base, F) or not base.typ.startswith("map:"):
                 raise KernelError(f"subscript of {getattr(base, 'typ', '?')}")
             key = self.expr(node.slice, env)
@@ -465,6 +484,8 @@ class Translator:
             if isinstance(stmt, ast.Assign):
                 for tgt in stmt.targets:
                     for n in (tgt.elts if isinstance(tgt, ast.Tuple) else [tgt]):
+                        if isinstance(n, ast.Subscript) and isinstance(n.value, ast.Name):
+                            n = n.value
                         if isinstance(n, ast.Name) and n.id not in names:
                             names.append(n.id)
             elif self.append_target(stmt):
@@ -504,7 +525,7 @@ class Translator:
         if not stmts:
             return False
         last = stmts[-1]
-        if isinstance(last, (ast.Return, ast.Raise)):
+        if isinstance(last, (ast.Return, ast.Raise)) or (isinstance(last, ast.Continue) and self.loop_depth):
             return True
         if isinstance(last, ast.If):
             test = self.assume.get(ast.unparse(last.test))
@@ -563,6 +584,13 @@ class Translator:
             return self.block(rest, env, tail)
         if isinstance(stmt, ast.Pass):
             return self.block(rest, env, tail)
+        if isinstance(stmt, ast.Continue):
+            # inside the body of a translated for loop: this pass ends here with the state as it is
+            if not self.loop_depth:
+                raise KernelError("continue outside a translated loop")
+            if rest:
+                raise KernelError("statements after continue")
+            return tail(env)
         if isinstance(stmt, ast.FunctionDef):
             # a nested function is translated as a kernel of its own; here its calls must be mapped to that kernel
             if stmt.name not in self.calls:
@@ -601,6 +629,17 @@ class Translator:
             if isinstance(item, F) or item.typ != env[name].typ[5:]:
                 raise KernelError(f"append of {getattr(item, 'typ', 'Q')} to {env[name].typ}")
             text, env2 = self.bind(name, E(f"{par(env[name].text)} ++ [{item.text}]", env[name].typ), env)
+            return text + self.block(rest, env2, tail)
+        if isinstance(stmt, ast.Assign) and len(stmt.targets) == 1 and isinstance(stmt.targets[0], ast.Subscript) \
+                and isinstance(stmt.targets[0].value, ast.Name) and ast.unparse(stmt.targets[0].slice) == "-1":
+            # name[-1] = value on a list local: the last element is replaced
+            name = stmt.targets[0].value.id
+            if name not in env or isinstance(env[name], F) or not env[name].typ.startswith("list "):
+                raise KernelError(f"{name}[-1] = ..., but {name} is not a list local")
+            item = self.expr(stmt.value, env)
+            if isinstance(item, F) or item.typ != env[name].typ[5:]:
+                raise KernelError(f"{name}[-1] = a value of type {getattr(item, 'typ', 'Q')}")
+            text, env2 = self.bind(name, E(f"removelast {par(env[name].text)} ++ [{item.text}]", env[name].typ), env)
             return text + self.block(rest, env2, tail)
         if isinstance(stmt, (ast.Assign, ast.AnnAssign)):
             targets = stmt.targets if isinstance(stmt, ast.Assign) else [stmt.target]
@@ -730,15 +769,16 @@ class Translator:
             if stmt.orelse or not isinstance(stmt.target, ast.Name):
                 raise KernelError("for with else or a pattern target")
             for sub in ast.walk(ast.Module(body=stmt.body, type_ignores=[])):
-                if isinstance(sub, (ast.Break, ast.Continue, ast.Return, ast.Raise)):
-                    raise KernelError("break / continue / return / raise inside a for loop")
+                if isinstance(sub, (ast.Break, ast.Return, ast.Raise)):
+                    raise KernelError("break / return / raise inside a for loop")
+                if isinstance(sub, (ast.For, ast.While)) and any(isinstance(x, ast.Continue) for x in ast.walk(sub)):
+                    raise KernelError("continue inside a nested loop")
             seq = self.expr(stmt.iter, env)
             if isinstance(seq, F) or not seq.typ.startswith("list "):
                 raise KernelError("for over a non-list")
-            names = self.assigned(stmt.body)
-            for n in names:
-                if n not in env:
-                    raise KernelError(f"loop variable {n} is not initialised before the loop")
+            # a name the body assigns that has no value before the loop is local to one pass (using it after the loop is a
+            # free variable and stops the translation there)
+            names = [n for n in self.assigned(stmt.body) if n in env]
             if not names:
                 raise KernelError("for without effect")
             shapes = {n: env[n] for n in names}
@@ -754,7 +794,11 @@ class Translator:
                     x = e[n]
                     items += [x.num, x.den] if isinstance(x, F) else [x.text]
                 return "(" + ", ".join(items) + ")" if len(items) != 1 else items[0]
-            body = self.block(stmt.body, env_in, loop_tail)
+            self.loop_depth += 1
+            try:
+                body = self.block(stmt.body, env_in, loop_tail)
+            finally:
+                self.loop_depth -= 1
             init = loop_tail(env)
             pattern2, env2 = self.unpack(names, shapes, env)
             return (f"let {pattern2} :=\n  fold_left (fun {par(pattern) if not pattern.startswith(chr(39)) else pattern} "
